@@ -387,6 +387,8 @@ op_reg_tmr(int64_t us, int dbl, int al)
 		return;
 	if (us < 0)
 		us = -us;
+	if ((uint64_t)us > 9000000000000000ULL || now_ns / 1000 + (uint64_t)us > 9000000000000000ULL)
+		us %= 1000000;		/* keep the 64-bit nanosecond clock of the simulation from wrapping */
 	r->timeo_us = (uint64_t)us;
 	r->dbl = dbl ? 1 : 0;
 	for (attempt = 0; attempt < 2; attempt++) {
@@ -990,6 +992,16 @@ drain_and_finish(void)
 			w_rd[fi] = w_wr[fi] = 1;
 		p = n_pending();
 		lim = 3 * p + 10;
+		{
+			/* a poll can sleep at most INT_MAX ms: far-away deadlines need that many more calls */
+			uint64_t mx = 0;
+
+			for (i = 0; i < nreg; i++)
+				if (regs[i].live && regs[i].kind == K_TMR && regs[i].dl_hi > mx)
+					mx = regs[i].dl_hi;
+			if (mx > now_us())
+				lim += (int)((mx - now_us()) / 2147483647000ULL) + 2;
+		}
 		for (k = 0; k < lim && n_pending() > 0; k++) {
 			run_once(0, NULL, 0);
 			if (sim_af_persist && simalloc_failed)
@@ -1082,6 +1094,13 @@ gen_action(struct prng * g, int64_t * v, int nal, int incb, int nfd)
 		case 4: v[1] = (int64_t)prng_n(g, 40) * 250; break;	/* many ties */
 		default: v[1] = (int64_t)prng_n(g, 1000) * 37; break;
 		}
+		if (prng_chance(g, 4)) {
+			/* far-away deadlines: around the INT_MAX-millisecond poll clamp, around 2^31 and 2^32 seconds, a century */
+			static const int64_t far_s[] = { 2147482, 2147483, 2147483, 2147483, 2147484, 2147485, 2147483647LL, 2147483648LL, 2147483649LL,
+			    4294967295LL, 4294967296LL, 3155760000LL, 86400, 86400 * 25 };
+
+			v[1] = far_s[prng_n(g, sizeof(far_s) / sizeof(far_s[0]))] * 1000000 + (int64_t)(prng_chance(g, 50) ? 640000 + prng_n(g, 360000) : prng_n(g, 1000000));
+		}
 		v[2] = prng_chance(g, 20);
 		break;
 	case OP_CANCEL_IMM: case OP_CANCEL_TMR: case OP_RESET_TMR:
@@ -1133,7 +1152,7 @@ engine_gen(struct plan * P, uint64_t seed, struct prng * g)
 	for (i = 0; i < nfd; i++)
 		pline_tok(l, 1, (int64_t)fdv[i]);
 	plan_add(P, "knob", "tick_ns", 1, prng_chance(g, 30) ? (int64_t)prng_n(g, 3000) : (int64_t)0);
-	plan_add(P, "knob", "budget", 1, (int64_t)(20 + nfd + prng_n(g, 150)));
+	plan_add(P, "knob", "budget", 1, (int64_t)(80 + nfd + prng_n(g, 150)));
 	plan_add(P, "knob", "realloc_moves", 1, (int64_t)prng_n(g, 2));
 	plan_add(P, "knob", "fill", 1, (int64_t)(prng_chance(g, 50) ? 256 : (prng_chance(g, 50) ? 0xff : 0)));
 	faulty = prng_chance(g, 75);
@@ -1163,6 +1182,16 @@ engine_gen(struct plan * P, uint64_t seed, struct prng * g)
 			if (prng_chance(g, 90))
 				plan_add(P, "step", "reg_net", 3, (int64_t)i, (int64_t)prng_n(g, 2),
 				    (nal > 0 && prng_chance(g, 60)) ? (int64_t)prng_n(g, (uint32_t)nal) : (int64_t)-1);
+	}
+	if (prng_chance(g, 25)) {
+		/* many timers pending at once (a heap several levels deep), then cancels and resets by handle */
+		int nt = 12 + (int)prng_n(g, 40), k;
+
+		for (k = 0; k < nt; k++)
+			plan_add(P, "step", "reg_tmr", 3, (int64_t)(prng_chance(g, 30) ? prng_n(g, 50) * 100 : prng_n(g, 200000)), (int64_t)prng_chance(g, 15),
+			    (nal > 0 && prng_chance(g, 30)) ? (int64_t)prng_n(g, (uint32_t)nal) : (int64_t)-1);
+		for (k = 0; k < 2 + (int)prng_n(g, 10); k++)
+			plan_add(P, "step", prng_chance(g, 70) ? "cancel_tmr" : "reset_tmr", 3, (int64_t)prng_n(g, 1000), (int64_t)0, (int64_t)-1);
 	}
 	nsteps = 5 + (int)prng_n(g, 60);
 	for (s = 0; s < nsteps; s++) {
